@@ -16,7 +16,7 @@ def run():
         "A-NP: D[np.ix_(idx, idx)] selects rows/columns idx; np.asarray(radii)[idx] selects the radii of idx",
         "A-SK: DBSCAN groups (see C01)",
     ]
-    sections_parallel(rep, [("cluster.init", _init), ("cluster.getdim", _getdim), ("merge", _merge), ("clean", _clean), ("localize", _localize), ("pipeline", _pipeline)])
+    sections_parallel(rep, [("cluster.init", _init), ("cluster.getdim", _getdim), ("merge", _merge), ("clean", _clean), ("localize", _localize), ("pipeline.main", _pipeline_main), ("pipeline.merge", _pipeline_merge)])
     return rep
 
 
@@ -69,14 +69,21 @@ def _localize(rep):
     run_fv(rep, "localize.", sbc_ctx(), "SBC._localize_clusters", mk, post, loops=L.LOOPS)
 
 
-def _pipeline(rep):
+def _pipeline_main(rep):
+    _pipeline(rep, "_main")
+
+
+def _pipeline_merge(rep):
+    _pipeline(rep, "_mergeloop")
+
+
+def _pipeline(rep, which):
     """get_clusters end to end (shared with C01): every returned cluster carries the clustering radii and threshold and satisfies the cache invariant;
     _merge_clusters keeps the radii/threshold tokens of its clusters (WF clause 'carry-the-clustering-radii-and-threshold')"""
     from props import C01
     from engine.common import Report as _R
     tmp = _R("tmp")
-    C01._main(tmp)
-    C01._mergeloop(tmp)
+    getattr(C01, which)(tmp)
     keep = ("cache", "radii", "cover.", "canary", "distances-of-the-wrapped-copy", "with-the-resolved-radii", "threshold-forwarded")
     for ob in tmp.obligations:
         if any(k in ob.id for k in keep):
@@ -93,6 +100,8 @@ def replay_key(ob):
 def replay(ob):
     from props import C01_native as N
     fails = N.clean(c13=True)
+    if not fails:
+        fails = N.unordered_clusters()
     if not fails:
         fails = N.end_to_end(c13=True)
     return {"reproduced": bool(fails), "failing_inputs": fails[:3]}
